@@ -522,6 +522,9 @@ class Sim:
                 self.stats["max_inflight"] = inflight
             w.sem.release()
             self.director_sem.acquire()
+            if w.state != "done":
+                # the task was pre-empted (or blocked): an lru_cache may evict at any instant, not only between tasks
+                self._fault_at_preempt(gno, w)
             if w.state == "done":
                 k = running.pop(w)
                 ok, val = w.result
@@ -644,6 +647,29 @@ class Sim:
                 self.stats["cache_clears_inflight"] += 1
             self.rec_faults.append({"kind": "F6", "get": gno, "task": tord, "caches": names})
             self._ev("F6", gno, tord, tuple(names))
+
+    def _fault_at_preempt(self, gno, w):
+        caches = self.hooks.get("caches")
+        if not caches:
+            return
+        names = None
+        if self.mode == "prng":
+            p = self.faults.get("F6", 0.0)
+            if p and self.rng.random() < p * 0.25:
+                allnames = sorted(caches)
+                names = [nm for nm in allnames if self.rng.random() < 0.5] or [allnames[self.rng.randrange(len(allnames))]]
+        else:
+            for fe in self.script_faults.get((gno, w.task_ord), ()):
+                if fe["kind"] == "F6p" and fe.get("k") == w.k:
+                    names = list(fe["caches"])
+        if names:
+            for nm in names:
+                if nm in caches:
+                    caches[nm].cache_clear()
+            self.stats["cache_clears"] += 1
+            self.stats["cache_clears_inflight"] += 1
+            self.rec_faults.append({"kind": "F6p", "get": gno, "task": w.task_ord, "k": w.k, "caches": names})
+            self._ev("F6p", gno, w.task_ord, w.k, tuple(names))
 
     def _compare_dup(self, key, a, b):
         cmp = self.hooks.get("deep_equal")
